@@ -606,7 +606,7 @@ func isSubmissionType(t types.Type) bool {
 	if tup.At(n-1).Type().String() != "error" {
 		return false
 	}
-	if b, ok := tup.At(n-2).Type().(*types.Basic); !ok || b.Kind() != types.Uint32 {
+	if b, ok := tup.At(n - 2).Type().(*types.Basic); !ok || b.Kind() != types.Uint32 {
 		return false
 	}
 	for i := 0; i < n-2; i++ {
@@ -709,7 +709,7 @@ func checkSingleDeployer(cx *CheckCtx, sp *ssa.Package) {
 					if t.Op == "bin" && t.Name == "==" {
 						x, y := t.Args[0], t.Args[1]
 						isIdx := func(z *Term) bool {
-							return z.Op == "phi" || z.Op == "param" || z.Op == "field" || z.Op == "load"
+							return z.Op == "phi" || z.Op == "param" || z.Op == "field" || z.Op == "load" || z.Op == "ret" || z.Op == "call" || z.Op == "icall"
 						}
 						if n, isC := y.IntConst(); isC && n == 0 && isIdx(x) {
 							ok2 = true
@@ -717,7 +717,7 @@ func checkSingleDeployer(cx *CheckCtx, sp *ssa.Package) {
 						if n, isC := x.IntConst(); isC && n == 0 && isIdx(y) {
 							ok2 = true
 						}
-						if isIdx(x) && isIdx(y) && (strings.Contains(desc, "rangeindex") || x.Op == "phi" || y.Op == "phi") {
+						if isIdx(x) && isIdx(y) {
 							ok2 = true // per-member Alphabet contract: loop index == local index
 						}
 					}
@@ -802,6 +802,19 @@ func checkStageOrder(cx *CheckCtx, sp *ssa.Package) {
 	var sortCall, nnsCall, notaryCall ssa.Instruction
 	var syncs []ssa.Instruction
 	var idxLoop *ssa.BasicBlock
+	// searchesIndex: f holds a loop that compares members with Equal (the local index search)
+	searchesIndex := func(f *ssa.Function) bool {
+		for _, b := range f.Blocks {
+			for _, ins := range b.Instrs {
+				if c, ok := ins.(*ssa.Call); ok {
+					if cal := c.Common().StaticCallee(); cal != nil && cal.Name() == "Equal" && innermostLoop(b) != nil {
+						return true
+					}
+				}
+			}
+		}
+		return false
+	}
 	for _, b := range fn.Blocks {
 		for _, ins := range b.Instrs {
 			c, ok := ins.(*ssa.Call)
@@ -823,6 +836,8 @@ func checkStageOrder(cx *CheckCtx, sp *ssa.Package) {
 				syncs = append(syncs, c)
 			case cal.Name() == "Equal" && idxLoop == nil:
 				idxLoop = innermostLoop(b)
+			case idxLoop == nil && cal.Pkg == fn.Pkg && cal.Blocks != nil && searchesIndex(cal):
+				idxLoop = b // the search extracted into a helper: its call site stands for the loop
 			}
 		}
 	}
